@@ -63,6 +63,9 @@ def main():
         lambda e, s: jinja2.meta.find_undeclared_variables(e.parse(s)),
         lambda e, s: list(jinja2.meta.find_referenced_templates(e.parse(s))),
         lambda e, s: e.from_string("{% if x %}{{ y }}").render(),
+        lambda e, s: e.from_string("{% trans %}Hello {{ user.name }}{% endtrans %}"),      # not allowed inside trans: fails in the extension
+        lambda e, s: e.from_string("{% trans a=1 %}x {{ a }}{% if a %}{% endif %}{% endtrans %}"),
+        lambda e, s: e.from_string("{% trans %}never closed {{ name }}"),
     ]
 
     def compile_one(cid):
